@@ -158,6 +158,20 @@ def check_sort(case, ctx):
     return None
 
 
+def _keys_present(tables, key):
+    """Every data row of every table holds all of its key cells (rows may still be short beyond them)."""
+    for t in tables:
+        hdr = t[0]
+        if key is None:
+            need = len(hdr)
+        else:
+            ks = key if isinstance(key, (list, tuple)) else [key]
+            need = 1 + max((k if isinstance(k, int) else hdr.index(k)) for k in ks)
+        if any(len(r) < need for r in t[1:]):
+            return False
+    return True
+
+
 @st.composite
 def merge_case(draw, tier):
     maxrows = 6 if tier == "quick" else 14
@@ -195,9 +209,9 @@ def merge_case(draw, tier):
         header = [f for f in header if f in ("k", "j") or f not in drop]
     n = max(len(t) - 1 for t in tables)
     return {"tables": tables, "key": key, "reverse": draw(st.booleans()), "missing": missing,
-            # (presorted inputs are sorted by the harness on the raw key cells; with a non-None `missing` a short row's key
-            #  becomes `missing` only after padding, so ragged tables are then left to mergesort's own sorting)
-            "header": header, "presorted": draw(st.booleans()) and not (any_ragged and missing is not None), "buffersize": draw(gen.buffersizes(n)),
+            # (presorted inputs are sorted by the harness on the raw key cells; with a non-None `missing` the key of a row too
+            #  short to hold a key field becomes `missing` only after padding, so presorted then needs every key cell present)
+            "header": header, "presorted": draw(st.booleans()) and (missing is None or _keys_present(tables, key)), "buffersize": draw(gen.buffersizes(n)),
             "passes": draw(st.integers(1, 2)),
             # inputs that are themselves sort views on the same key, in the same or the opposite direction
             "upstream": [draw(st.sampled_from(["none", "none", "none", "same", "opposite"])) for _ in tables]}
